@@ -18,6 +18,9 @@ type C19Case struct {
 	Stdin string            `json:"stdin"`
 	Files map[string]string `json:"files,omitempty"` // below regex-assembly/
 	Kind  string            `json:"kind"`
+	// Cmd: "" = generate from stdin; otherwise a command built on generate that reads the same text
+	// from regex-assembly/932100.ra: generate-id | update | compare | format | format-check
+	Cmd string `json:"cmd,omitempty"`
 }
 
 var hostile = []string{`\(?i:`, `\(?i:a`, `[(]?-s:`, `\x28?i:`, `(?:a\)|b)`, `[|]`, `\|`, `[\\]`, `\(?s)`, `\(?-s:.)`, `\(?m:^)`, `[(]?i:x)`, `\(?i:a|b)`, `(?:`, `)`, `(`, `[`, `]`, `{{`, `}}`, `{{x}}`,
@@ -44,6 +47,7 @@ func genC19(t *rapid.T) C19Case {
 			sb.WriteString(rapid.SampledFrom([]string{"\n", "\n", "\n", "\r\n", ""}).Draw(t, "eol"))
 		}
 		c.Stdin = sb.String()
+		c.Cmd = rapid.SampledFrom([]string{"", "", "", "", "generate-id", "update", "compare", "format", "format-check"}).Draw(t, "cmd")
 		for i := 0; i < 2; i++ {
 			if rapid.Bool().Draw(t, "file") {
 				var fb strings.Builder
@@ -98,7 +102,7 @@ func genC19(t *rapid.T) C19Case {
 		splice(g.Prog.Files[n])
 	}
 	// hostile directive lines (odd replacement lists, missing arguments, glued text)
-	if rapid.IntRange(0, 5).Draw(t, "hostiledirective") == 0 {
+	if rapid.IntRange(0, 11).Draw(t, "hostiledirective") == 0 {
 		l := ragen.Line{K: ragen.KRaw, T: rapid.SampledFrom([]string{
 			"##!> include f0 -- a", "##!> include f0 -- a b c", "##!> include-except f0 f1 -- a b c", "##!> include f0 --", "##!> include nosuch -- x",
 			"##!> include-except f0", "##!> include-except", "##!> include", "##!> define", "##!> define x", "##!> cmdline", "##!> cmdline  ", "##!>", "##!> assemble x y",
@@ -108,6 +112,7 @@ func genC19(t *rapid.T) C19Case {
 		g.Prog.Main = append(g.Prog.Main[:pos], append([]ragen.Line{l}, g.Prog.Main[pos:]...)...)
 	}
 	c.Stdin = g.Prog.MainText()
+	c.Cmd = rapid.SampledFrom([]string{"", "", "", "", "", "generate-id", "update", "compare", "format", "format-check"}).Draw(t, "cmd")
 	for n, l := range g.Prog.Files {
 		c.Files[n] = ragen.Print(l, "\n", true)
 	}
@@ -144,14 +149,33 @@ func runC19(c C19Case, timeout time.Duration) cli.Result {
 	for k, v := range c.Files {
 		t["regex-assembly/"+k] = v
 	}
+	if c.Cmd != "" {
+		t["regex-assembly/932100.ra"] = c.Stdin
+		t["rules/REQUEST-932-X.conf"] = "SecRule ARGS \"@rx old\" \\\n    \"id:932100,\\\n    phase:2\"\n"
+	}
 	if err := t.Write(sb.Path("crs")); err != nil {
 		panic(err)
 	}
-	return cli.Run(cli.Opt{Dir: sb.Root, Stdin: c.Stdin, Timeout: timeout}, "-d", sb.Path("crs"), "regex", "generate", "-")
+	args := []string{"-d", sb.Path("crs"), "regex"}
+	switch c.Cmd {
+	case "generate-id":
+		args = append(args, "generate", "932100")
+	case "update":
+		args = append(args, "update", "932100")
+	case "compare":
+		args = append(args, "compare", "932100")
+	case "format":
+		args = append(args, "format", "932100")
+	case "format-check":
+		args = append(args, "format", "--check", "932100")
+	default:
+		return cli.Run(cli.Opt{Dir: sb.Root, Stdin: c.Stdin, Timeout: timeout}, append(args, "generate", "-")...)
+	}
+	return cli.Run(cli.Opt{Dir: sb.Root, Timeout: timeout}, args...)
 }
 
 func checkC19(c C19Case) Outcome {
-	out := Outcome{Detail: map[string]any{}, Labels: []string{"kind:" + c.Kind}}
+	out := Outcome{Detail: map[string]any{"cmd": c.Cmd}, Labels: []string{"kind:" + c.Kind, "cmd:" + map[bool]string{true: "generate-stdin", false: c.Cmd}[c.Cmd == ""]}}
 	r := runC19(c, 10*time.Second)
 	if r.TimedOut {
 		// re-run twice alone with a longer limit before it counts
@@ -187,7 +211,7 @@ func checkC19(c C19Case) Outcome {
 		out.Violation = fmt.Sprintf("unexpected exit status %d", r.Exit)
 		return out
 	}
-	reached := r.Exit == 0 && r.Stdout != ""
+	reached := r.Exit == 0 && (r.Stdout != "" || c.Cmd == "update" || strings.HasPrefix(c.Cmd, "format"))
 	if reached {
 		out.Labels = append(out.Labels, "reached-cleanup-passes")
 	}
@@ -199,8 +223,8 @@ func checkC19(c C19Case) Outcome {
 		}
 	}
 	out.NonTrivial = reached || hasHostile
-	out.Key = c.Stdin + "\x00" + fmt.Sprint(c.Files)
-	out.Sample = map[string]any{"stdin": clip(c.Stdin, 300), "exit": r.Exit, "stdout": clip(r.Stdout, 120)}
+	out.Key = c.Cmd + "\x00" + c.Stdin + "\x00" + fmt.Sprint(c.Files)
+	out.Sample = map[string]any{"cmd": c.Cmd, "input": clip(c.Stdin, 300), "exit": r.Exit, "stdout": clip(r.Stdout, 120)}
 	return out
 }
 
